@@ -39,6 +39,19 @@ pub struct Case {
     pub list: u8,
     pub list_k: u8,
     pub prf: u8,
+    /// takes the place of the first RP ID everywhere (held credentials and requests): any text of 0..80 bytes
+    #[serde(default)]
+    pub rp0: Option<String>,
+    /// store faults armed on both sides before the call: (index of the fallible store call, status byte)
+    #[serde(default)]
+    pub faults: Vec<(u8, u8)>,
+}
+
+fn rp_name(c: &Case, i: u8) -> String {
+    match (&c.rp0, i % 2) {
+        (Some(s), 0) => s.clone(),
+        _ => RPS[i as usize % 2].to_string(),
+    }
 }
 
 fn cred_id(k: usize) -> Vec<u8> {
@@ -56,10 +69,11 @@ fn build(c: &Case) -> (Authenticator<RefStore, ScriptedUv>, RefStore, ScriptedUv
                 1 => Some((sha256(format!("g{k}").as_bytes()).to_vec(), None)),
                 _ => Some((sha256(format!("g{k}").as_bytes()).to_vec(), Some(sha256(format!("p{k}").as_bytes()).to_vec()))),
             };
-            make_passkey(300 + k as u64, RPS[*rp as usize % 2], &cred_id(k), uh.then_some(b"c18-user-handle".as_slice()), *counter, h)
+            make_passkey(300 + k as u64, &rp_name(c, *rp), &cred_id(k), uh.then_some(b"c18-user-handle".as_slice()), *counter, h)
         })
         .collect();
     let store = RefStore::with(c.disc, creds);
+    store.set_faults(c.faults.iter().map(|(i, code)| ((*i % 4) as usize, *code)).collect());
     let uv = ScriptedUv::new(c.script.clone());
     let auth = cer::build_authenticator(store.clone(), uv.clone(), &AuthCfg { counter: c.counter_cfg, hmac: c.hmac, ..Default::default() });
     (auth, store, uv)
@@ -96,7 +110,7 @@ fn salts(n: u8) -> AuthenticatorPrfInputs {
 fn mc_request(c: &Case) -> make_credential::Request {
     make_credential::Request {
         client_data_hash: vec![1u8; 32].into(),
-        rp: make_credential::PublicKeyCredentialRpEntity { id: RPS[c.rp as usize % 2].into(), name: Some("rp".into()) },
+        rp: make_credential::PublicKeyCredentialRpEntity { id: rp_name(c, c.rp), name: Some("rp".into()) },
         user: passkey_types::webauthn::PublicKeyCredentialUserEntity { id: b"c18-new-user".to_vec().into(), display_name: "d".into(), name: "n".into() },
         pub_key_cred_params: cer::params(if c.algs_supported { &[-257, -7] } else { &[-257] }),
         exclude_list: list(c),
@@ -109,7 +123,7 @@ fn mc_request(c: &Case) -> make_credential::Request {
 
 fn ga_request(c: &Case) -> get_assertion::Request {
     get_assertion::Request {
-        rp_id: RPS[c.rp as usize % 2].into(),
+        rp_id: rp_name(c, c.rp),
         client_data_hash: vec![2u8; 32].into(),
         allow_list: list(c),
         extensions: (c.prf > 0).then(|| get_assertion::ExtensionInputs { hmac_secret: None, prf: Some(salts(c.prf)) }),
@@ -276,7 +290,18 @@ fn strategy() -> impl Strategy<Value = Case> {
         script,
         (0u8..2, proptest::bool::weighted(0.2), proptest::bool::weighted(0.85), any::<bool>(), proptest::bool::weighted(0.85), proptest::bool::weighted(0.15), 0u8..7, any::<u8>(), 0u8..3),
     )
-        .prop_map(|((op, hmac, counter_cfg, disc), contents, script, (rp, rk, up, uv, algs_supported, pin_auth, list, list_k, prf))| Case { op, hmac, counter_cfg, disc, contents, script, rp, rk, up, uv, algs_supported, pin_auth, list, list_k, prf })
+        .prop_map(|((op, hmac, counter_cfg, disc), contents, script, (rp, rk, up, uv, algs_supported, pin_auth, list, list_k, prf))| Case { op, hmac, counter_cfg, disc, contents, script, rp, rk, up, uv, algs_supported, pin_auth, list, list_k, prf, rp0: None, faults: vec![] })
+        .prop_flat_map(|c| {
+            // RP IDs of any shape and length (the API takes any string), and store calls failing with any status byte
+            let ch = prop_oneof![6 => "[a-z0-9.-]", 2 => "[\u{80}-\u{7ff}]", 1 => "[\u{800}-\u{ffff}]", 1 => "[\u{10000}-\u{10ffff}]"];
+            let rp0 = proptest::option::weighted(0.35, proptest::collection::vec(ch, 0..70).prop_map(|v| v.concat()));
+            let faults = prop_oneof![3 => Just(vec![]), 2 => proptest::collection::vec((0u8..4, prop_oneof![3 => any::<u8>(), 1 => Just(0x2Eu8), 1 => Just(0x38), 1 => Just(0x01)]), 1..3)];
+            (Just(c), rp0, faults).prop_map(|(mut c, rp0, faults)| {
+                c.rp0 = rp0;
+                c.faults = faults;
+                c
+            })
+        })
 }
 
 pub fn gen_case(seed: u64, i: u64) -> Case {
@@ -293,6 +318,7 @@ fn body_for(case: Case) -> (Option<usize>, Box<dyn FnMut() -> Body + Send>) {
                 Ok(c) => c.to_string(),
                 Err(_) => "mismatch".into(),
             };
+            let class = format!("{class}{}{}", if case.faults.is_empty() { "" } else { "+store-fault" }, if case.rp0.is_some() { "+free-text-rp" } else { "" });
             Body { class, result: r.map(|_| ()), nontrivial: case.op % 3 != 0, key, sample: Some(json!(case)) }
         }),
     )
@@ -324,6 +350,9 @@ fn fails(case: &Case) -> Option<String> {
 fn minimise(case: &Case) -> Case {
     let mut best = case.clone();
     let candidates: Vec<Box<dyn Fn(&Case) -> Case>> = vec![
+        Box::new(|c| Case { faults: vec![], ..c.clone() }),
+        Box::new(|c| Case { faults: c.faults.iter().take(1).cloned().collect(), ..c.clone() }),
+        Box::new(|c| Case { rp0: None, ..c.clone() }),
         Box::new(|c| Case { contents: vec![], ..c.clone() }),
         Box::new(|c| Case { contents: c.contents.iter().take(1).cloned().collect(), ..c.clone() }),
         Box::new(|c| Case { prf: 0, ..c.clone() }),
@@ -346,7 +375,7 @@ fn minimise(case: &Case) -> Case {
 }
 
 pub fn run(ctx: &mut Ctx) {
-    ctx.rule = "requests for getInfo / makeCredential / getAssertion (valid and failing: unsupported algorithms, rk on a non-discoverable store, pin-auth, up=false, denied or failing user validation, allow/exclude lists that are absent/empty/miss/hit/foreign, PRF requests) with generated store contents (0-4 credentials over two RPs, counters incl. max, with/without user handle and PRF secrets), store capability, hmac-secret configuration and user-validation behaviour; two authenticators are built from the same description, one is driven through <Authenticator as Ctap2Api>, the other through the direct methods, each case in an isolated worker with an 8 MiB stack and CPU watchdog. Non-trivial = makeCredential / getAssertion pairs; distinct by case.".into();
+    ctx.rule = "requests for getInfo / makeCredential / getAssertion (valid and failing: unsupported algorithms, rk on a non-discoverable store, pin-auth, up=false, denied or failing user validation, allow/exclude lists that are absent/empty/miss/hit/foreign, PRF requests) with generated store contents (0-4 credentials over two RPs, counters incl. max, with/without user handle and PRF secrets), store capability, hmac-secret configuration and user-validation behaviour, RP IDs that are arbitrary text of 0-70 characters (ASCII and 2/3/4-byte characters), and store calls that fail with any status byte (both sides armed alike); two authenticators are built from the same description, one is driven through <Authenticator as Ctap2Api>, the other through the direct methods, each case in an isolated worker with an 8 MiB stack and CPU watchdog. Non-trivial = makeCredential / getAssertion pairs; distinct by case.".into();
     ctx.assumptions = vec![
         "results are compared by status byte (errors), by authenticator data / selected credential / user entity / extension outputs and by signature validity under the stored key (successes; new keys and ids are random so registrations are compared by shape), and by the abstract store state, the user-validation call log and the sequence of store calls".into(),
         "termination: a worker that dies or exceeds 10 s of CPU is attributed to the case it had started".into(),
